@@ -284,7 +284,7 @@ const LADDERS: &[&str] = &[
     "nest-symbol", "nest-loop", "nest-if", "nest-specs", "siblings-rect", "siblings-text-content", "siblings-g", "attr-count", "attr-value-length", "text-length", "text-lines", "path-segments",
     "path-after-closepath", "points-length", "transform-list", "reuse-chain", "use-chain", "var-chain-reverse", "prev-chain", "forward-ref-chain", "forward-ref-nested-groups", "loop-nest",
     "loop-count", "for-list", "var-growth", "defaults-count", "comment-length", "cdata-length", "entity-count", "class-count", "surround-list", "connector-count", "deep-unclosed", "many-roots",
-    "var-paren-indirection", "clip-chain", "var-doubling-groups", "var-doubling-reuse", "var-sum-tree",
+    "var-paren-indirection", "clip-chain", "var-doubling-groups", "var-doubling-reuse", "var-sum-tree", "nest-g-lifted-limit", "loop-defaults",
 ];
 
 fn rungs(tier: Tier) -> Vec<u64> {
@@ -307,6 +307,10 @@ fn ladder_doc(family: &str, n: u64) -> Option<(String, u64)> {
             let t = family.strip_prefix("nest-").unwrap();
             (format!("{}<rect wh=\"1\"/>{}", rep(&format!("<{t}>"), n_us), rep(&format!("</{t}>"), n_us)), n + 1)
         }
+        // the document lifts the depth limit itself (docs: `depth-limit="10000"`), then nests
+        "nest-g-lifted-limit" => (format!("<config depth-limit=\"100000000\"/>{}<rect wh=\"1\"/>{}", rep("<g>", n_us), rep("</g>", n_us)), n + 1),
+        // n x 250 iterations of a body holding a <defaults> element
+        "loop-defaults" => (format!("<svg><loop count=\"{n}\"><loop count=\"250\"><defaults><rect fill=\"red\"/></defaults><rect wh=\"1\"/></loop></loop></svg>"), 500 * n + 2),
         "nest-text-tspan" => (format!("<text>{}t{}</text>", rep("<tspan>", n_us), rep("</tspan>", n_us)), n + 1),
         "nest-loop" => (format!("{}<rect wh=\"1\"/>{}", rep("<loop count=\"1\">", n_us), rep("</loop>", n_us)), n + 1),
         "nest-if" => (format!("{}<rect wh=\"1\"/>{}", rep("<if test=\"1\">", n_us), rep("</if>", n_us)), n + 1),
@@ -442,6 +446,9 @@ fn ladder_cases(tier: Tier) -> Vec<Case> {
     let mut v = Vec::new();
     let max_work: u64 = tier.pick(100_000, 5_000_000);
     for f in LADDERS {
+        if *f == "loop-defaults" && tier == Tier::Quick {
+            continue; // a quadratic cost: the first rung beyond the watchdog costs about 25 s of one worker (thorough tier only)
+        }
         for (li, cfg) in [Cfg::plain(), small_limits(), Cfg { loop_limit: 1, var_limit: 1, depth_limit: 1, ..Cfg::plain() }].into_iter().enumerate() {
             for n in rungs(tier) {
                 if li > 0 && n > 4096 {
